@@ -53,6 +53,9 @@ ASCII_LOOKALIKE_CLASSES = _ascii_lookalikes()
 ASCII_LOOKALIKES = [c for cl in ASCII_LOOKALIKE_CLASSES for c in cl]
 
 
+INVISIBLES = "\ufeff\u200b\u200c\u200d\u2060\u00ad\ufe0f\u0301\u180e\u200e\u061c"
+
+
 def gen_const(rng: random.Random, name: str):
     """Returns an item ["c", T, name, literal, value] - value: bool | [n, d] | {"str": s} | {"set": 1}"""
     r = rng.random()
@@ -81,11 +84,14 @@ def gen_const(rng: random.Random, name: str):
     if k < 0.08:
         return ["c", t, name, rng.choice(["true", "false"]), rng.random() < 0.5] if False else ["c", t, name, "true", True]
     if k < 0.2:
-        s = rng.choice(["a", "", "ab", "é", "\x00", "\x7f", "ÿ", "Z", " ", "\x80", "0", "K", "`", ";"] + [rng.choice(rng.choice([cl for cl in ASCII_LOOKALIKE_CLASSES if cl]))] * 6)
+        s = rng.choice(["a", "", "ab", "é", "\x00", "\x7f", "ÿ", "Z", " ", "\x80", "0", "K", "`", ";"] + [rng.choice(rng.choice([cl for cl in ASCII_LOOKALIKE_CLASSES if cl]))] * 6
+                       # one ASCII character next to a character that text sanitisers tend to drop (BOM / zero-width / soft hyphen /
+                       # variation selector / combining mark): two characters, never a valid uint8 initializer
+                       + [rng.choice("azZ#09 ") + rng.choice(INVISIBLES), rng.choice(INVISIBLES) + rng.choice("azZ#09"), rng.choice(INVISIBLES)] * 2)
         if rng.random() < 0.5 and t[0] != "bool":
             t = ["u", 8, rng.choice("st")]  # the only type that can accept a character at all
         raw = rng.random() < 0.4  # the character itself in the (UTF-8) file instead of an escape sequence
-        lit = "'" + "".join(c if ((32 <= ord(c) < 127 or (raw and ord(c) >= 0xa0 and c.isprintable())) and c not in "'\\") else ("\\u%04x" % ord(c) if ord(c) < 0x10000 else "\\U%08x" % ord(c)) for c in s) + "'"
+        lit = "'" + "".join(c if ((32 <= ord(c) < 127 or (raw and ord(c) >= 0xa0 and (c.isprintable() or c in INVISIBLES))) and c not in "'\\") else ("\\u%04x" % ord(c) if ord(c) < 0x10000 else "\\U%08x" % ord(c)) for c in s) + "'"
         return ["c", t, name, lit, {"str": s}]
     if k < 0.24:
         return ["c", t, name, "{1, 2}", {"set": 1}]
